@@ -183,3 +183,26 @@ Theorem C13_ce_extremes_infinite :
         nth i0 d ENaN = PInf /\ nth i1 d ENaN = PInf.
 Proof. exact ce_extremes_infinite. Qed.
 Print Assumptions C13_ce_extremes_infinite.
+
+(* ---- "on fronts without coordinate ties the values equal the published definitions", crowding distance: the
+   contribution of one objective (column v, no two equal values) to a point i that is not an extreme of it is
+   (hi - lo) / (max - min), where lo = v[jl] is the largest value below v[i], hi = v[jh] the smallest value above it,
+   max = v[jmax] and min = v[jmin] (all characterised by order only).  calc_crowding_distance is, by its definition in
+   the model, the mean over the objectives of these contributions; extremes get +inf (C13_cd_extremes_infinite). ---- *)
+From PV Require Import Proofs.DefP.
+Theorem C13_cd_objective_matches_definition :
+  forall (v : list eq), Forall isfin v ->
+    (forall a b, (a < length v)%nat -> (b < length v)%nat -> a <> b -> eltb (key v a) (key v b) = true \/ eltb (key v b) (key v a) = true) ->
+    forall i jl jh jmin jmax, (i < length v)%nat -> (jl < length v)%nat -> (jh < length v)%nat -> (jmin < length v)%nat -> (jmax < length v)%nat ->
+      eltb (key v jl) (key v i) = true -> (forall j, (j < length v)%nat -> eltb (key v j) (key v i) = true -> fle (key v j) (key v jl)) ->
+      eltb (key v i) (key v jh) = true -> (forall j, (j < length v)%nat -> eltb (key v i) (key v j) = true -> fle (key v jh) (key v j)) ->
+      (forall j, (j < length v)%nat -> fle (key v jmin) (key v j)) -> (forall j, (j < length v)%nat -> fle (key v j) (key v jmax)) ->
+      exists q, nth i (cd_col (X := EQx) v) ENaN = Fin q /\
+                (q == (qof (key v jh) - qof (key v jl)) / (qof (key v jmax) - qof (key v jmin)))%Q.
+Proof. exact cd_col_definition. Qed.
+Print Assumptions C13_cd_objective_matches_definition.
+
+(* non-vacuity: the column [0; 1; 2; 4], point 2 (value 2): (4 - 1) / (4 - 0) = 3/4 *)
+Example C13_cd_definition_nonvacuous :
+  map shown (cd_col (X := EQx) [Fin 0; Fin 1; Fin 2; Fin 4]) = [None; Some (1 # 2); Some (3 # 4); None]%Q.
+Proof. vm_compute. reflexivity. Qed.
